@@ -254,7 +254,13 @@ class SimpleDictDocument(DictDocument):
                     if len(indexes) == 0:
                         nidx = 0
                     else:
-                        nidx = int(indexes.popleft())
+                        try:
+                            nidx = int(indexes.popleft())
+                        except ValueError:
+                            # int() refuses digit strings that are longer than
+                            # sys.get_int_max_str_digits()
+                            raise ValidationError(orig_k[:100],
+                                                   "%r: Invalid array index.")
 
                     if ninst is None:
                         ninst = []
